@@ -351,7 +351,8 @@ def chain_trace(spec, chosen, rep, mode):
             try:
                 v = ch.root.send(None)
             except StopIteration as ex:
-                log.append(("ret", ex.value))
+                v = ex.value
+                log.append(("ret", v if isinstance(v, (str, int, type(None))) else type(v).__name__))
                 break
             except BaseException as ex:  # noqa
                 log.append(("exc", type(ex).__name__))
